@@ -175,19 +175,13 @@ Section Three.
   (* ---- tokenization, one level at a time ---- *)
 
   Hypothesis Hes : ends_ok xs.
-  Hypothesis Hep : ends_ok xp.
 
-  Lemma syl_body_ok (syl : list str) : syl_ok syl ->
-    terminated xp syl <> [] /\ clean_ends (terminated xp syl).
+  Lemma syl_body_starts (syl : list str) : syl_ok syl ->
+    terminated xp syl <> [] /\ starts_ok (terminated xp syl).
   Proof.
-    intros (Hn & Hp & _). split; [now apply terminated_nonnil|]. split.
-    - destruct Hp as [|ph syl (Hph & Hws & _) _]; [congruence|].
-      rewrite terminated_cons. apply starts_ok_app; [exact Hph|now apply ws_free_starts_ok].
-    - unfold terminated. apply ends_ok_concat.
-      + destruct syl; [congruence|discriminate].
-      + apply Forall_map. eapply Forall_impl; [|exact Hp]. intros ph _. split.
-        * destruct ph; cbn [app]; [exact Hxp|discriminate].
-        * now apply ends_ok_app.
+    intros (Hn & Hp & _). split; [now apply terminated_nonnil|].
+    destruct Hp as [|ph syl (Hph & Hws & _) _]; [congruence|].
+    rewrite terminated_cons. apply starts_ok_app; [exact Hph|now apply ws_free_starts_ok].
   Qed.
 
   Lemma word_body_ok (w : list (list str)) : word_ok w ->
@@ -197,7 +191,7 @@ Section Three.
     { apply terminated_nonnil; [|exact Hxs]. destruct w; [congruence|discriminate]. }
     split.
     - destruct Hs as [|syl w Hsy _]; [congruence|]. cbn [map]. rewrite terminated_cons.
-      destruct (syl_body_ok syl Hsy) as (Hne & Hst & _). now apply starts_ok_app.
+      destruct (syl_body_starts syl Hsy) as (Hne & Hst). now apply starts_ok_app.
     - unfold terminated at 1. apply ends_ok_concat.
       + destruct w; [congruence|discriminate].
       + apply Forall_map. apply Forall_map. eapply Forall_impl; [|exact Hs]. intros syl _. split.
@@ -211,6 +205,20 @@ Section Three.
     intros H. unfold sep. rewrite render3_eq. apply tok1_terminated; [reflexivity|exact Hxw|].
     apply Forall_map. eapply Forall_impl; [|exact H]. intros w Hw.
     destruct (word_body_ok w Hw) as [H1 H2]. split; [exact H1|split; [exact H2|apply Hw]].
+  Qed.
+
+  Hypothesis Hep : ends_ok xp.
+
+  Lemma syl_body_ok (syl : list str) : syl_ok syl ->
+    terminated xp syl <> [] /\ clean_ends (terminated xp syl).
+  Proof.
+    intros Hsy. destruct (syl_body_starts syl Hsy) as [H0 H1].
+    destruct Hsy as (Hn & Hp & _). split; [exact H0|]. split; [exact H1|].
+    - unfold terminated. apply ends_ok_concat.
+      + destruct syl; [congruence|discriminate].
+      + apply Forall_map. eapply Forall_impl; [|exact Hp]. intros ph _. split.
+        * destruct ph; cbn [app]; [exact Hxp|discriminate].
+        * now apply ends_ok_app.
   Qed.
 
   Lemma tok1_syll3 (w : list (list str)) : word_ok w ->
